@@ -50,6 +50,8 @@ CountFailed(checks, i) == IF i > Len(checks) THEN 0
                                + CountFailed(checks, i + 1)
 
 NoLayout == [used |-> -1]
+\* Config.model = 0: the layout is not observable (C interface), only the ordered map is tracked
+WithModel == Cfg.model = 1
 
 TInit == /\ levels = D!EmptyLevels /\ used = Cfg.minl /\ idx = D!EmptyLevels /\ map = [k \in 0..(Cfg.nkeys - 1) |-> 0]
          /\ ops = 0 /\ hist = <<>>
@@ -71,13 +73,15 @@ TBulk == /\ IsEvent("Bulk")
             IN /\ nviol' = nviol + CountFailed(<< <<Ev.out = expected, "C20", "bulk_outcome">> >>, 1)
                /\ IF sorted /\ Ev.out = "ok"
                   THEN /\ Assert(st.ok, "MaxLvl too small for this trace")
-                       /\ levels' = st.levels /\ used' = st.used /\ idx' = st.idx /\ map' = st.map
+                       /\ IF WithModel THEN levels' = st.levels /\ used' = st.used /\ idx' = st.idx
+                          ELSE UNCHANGED <<levels, used, idx>>
+                       /\ map' = st.map
                   ELSE UNCHANGED <<levels, used, idx, map>>
          /\ UNCHANGED <<ops, hist, x, nk, ndrift, drifted, prevL, rej, done>>
 
 TPut == /\ IsEvent("Put")
         /\ IF Ev.out = "ok"
-           THEN /\ D!Insert(D!Item(Ev.k, Ev.v, FALSE))
+           THEN /\ IF WithModel THEN D!Insert(D!Item(Ev.k, Ev.v, FALSE)) ELSE UNCHANGED <<levels, used, idx>>
                 /\ map' = [map EXCEPT ![Ev.k] = Ev.v]
                 /\ rej' = FALSE
            ELSE /\ UNCHANGED <<levels, used, idx, map>> /\ rej' = TRUE
@@ -87,7 +91,7 @@ TPut == /\ IsEvent("Put")
         /\ UNCHANGED <<ops, hist, x, nk, ndrift, drifted, prevL, done>>
 
 TDel == /\ IsEvent("Del")
-        /\ D!Insert(D!Item(Ev.k, 0, TRUE))
+        /\ IF WithModel THEN D!Insert(D!Item(Ev.k, 0, TRUE)) ELSE UNCHANGED <<levels, used, idx>>
         /\ map' = [map EXCEPT ![Ev.k] = 0]
         /\ nviol' = nviol + CountFailed(<< <<Ev.out = "ok", "C05", "erase_outcome">> >>, 1)
         /\ rej' = FALSE
@@ -155,6 +159,18 @@ TObs == /\ IsEvent("Obs")
               <<O.empty = (D!LiveKeys = {}), "C06", "empty">> >>, 1)
         /\ UNCHANGED <<x, nk, ndrift, drifted, prevL, rej, done>>
 
+\* observations through the C interface (find, lower_bound + iterator_next, begin, size), sampled
+Prefix(s, k) == SubSeq(s, 1, IF Len(s) < k THEN Len(s) ELSE k)
+TCObs == /\ IsEvent("CObs")
+         /\ UNCHANGED mvars
+         /\ LET O == Ev IN
+            nviol' = nviol + CountFailed(<<
+               <<\A i \in 1..Len(O.find) : O.find[i][2] = map[O.find[i][1]], "C18", "find">>,
+               <<\A i \in 1..Len(O.lbs) : O.lbs[i].r = D!MapPairsUpTo(O.lbs[i].q, MaxK, O.lbs[i].limit), "C18", "lower_bound_iterator_next">>,
+               <<O.begin = D!MapPairsUpTo(0, MaxK, O.blimit), "C18", "begin_iterator_next">>,
+               <<O.size = Cardinality(D!LiveKeys), "C18", "size">> >>, 1)
+         /\ UNCHANGED <<x, nk, ndrift, drifted, prevL, rej, done>>
+
 TEnd == /\ IsEvent("End")
         /\ UNCHANGED mvars
         /\ UNCHANGED <<x, nk, nviol, ndrift, drifted, prevL, rej, done>>
@@ -164,7 +180,7 @@ TDone == /\ l = NLines + 1 /\ ~done
          /\ done' = TRUE
          /\ UNCHANGED mvars /\ UNCHANGED <<l, x, nk, nviol, ndrift, drifted, prevL, rej>>
 
-TNext == TReset \/ TBulk \/ TPut \/ TDel \/ TLayout \/ TObs \/ TEnd \/ TDone
+TNext == TReset \/ TBulk \/ TPut \/ TDel \/ TLayout \/ TObs \/ TCObs \/ TEnd \/ TDone
 TSpec == TInit /\ [][TNext]_<<mvars, tvars>>
 
 \* all lines were consumed: initial state + one state per line from the second on + the TDone step
